@@ -72,14 +72,23 @@ def exec_spec(ctx, spec):
     except HarnessError as e:
         return {'status': 'harness', 'msg': str(e)}
     timeout = spec.get('timeout', 60.0)
+    if os.environ.get('SIM_WATCHDOG'):       # testing the hang path only
+        timeout = float(os.environ['SIM_WATCHDOG'])
     st, res = fork_eval(lambda: mod.run(spec, refs), timeout)
     if st == 'ok':
         res.setdefault('status', 'ok')
     elif st == 'exc':
         res = {'status': 'harness', 'msg': 'run raised in harness: ' + res}
     elif st == 'timeout':
-        res = {'status': 'harness',
-               'msg': 'watchdog: run exceeded %.0fs real time' % timeout}
+        # a run that normally takes milliseconds to seconds did not come
+        # back within the (very generous) watchdog: the library hung.  The
+        # orchestrator only reports it if it reproduces in a fresh
+        # interpreter, otherwise it is a harness error.
+        if hasattr(mod, 'on_timeout'):
+            res = mod.on_timeout(spec, timeout)
+        else:
+            res = {'status': 'harness',
+                   'msg': 'watchdog: run exceeded %.0fs real time' % timeout}
     elif st.startswith('signal:') or st.startswith('exit:'):
         res = mod.on_crash(spec, st)
     else:
